@@ -144,18 +144,18 @@ SETS = ["none", "component.opts.x=5", "logging.loggers.a\\.b.level=DEBUG", "max_
 SET_VALUES = {1: ("component.opts.x", 5), 2: ("logging.loggers.a\\.b.level", "DEBUG"), 3: ("max_threads", 7), 4: ("component.opts.nested.y", [1, 2]),
               5: ("component.opts", {"z": 1}), 6: ("component.opts.x", None), 7: ("component.opts.t", "from-env"),
               8: ("component.opts.f", "file-text\n"), 9: ("component.opts.dsn", "postgresql://app@db/app?sslmode=require&x=1")}
-TAGS = ["none", "!Env", "!TextFile", "!BinaryFile"]
+TAGS = ["none", "!Env", "!TextFile", "!BinaryFile", "!Env of a variable that is set to the empty string"]
 
 
 def prec_params(tier):
-    return [P("file2", 0, 3), P("set1", 0, 9), P("set2", 0, 9), P("tag", 0, 3), P("svc", 0, 1)]
+    return [P("file2", 0, 3), P("set1", 0, 9), P("set2", 0, 9), P("tag", 0, 4), P("svc", 0, 1)]
 
 
 @guard
 def prec_fn(a, tier):
-    f2, s1, s2, tag, svc = pick(a["file2"], 4), pick(a["set1"], 10), pick(a["set2"], 10), pick(a["tag"], 4), pick(a["svc"], 2)
-    tagged_yaml = {0: "plain", 1: "!Env C16_VAR", 2: "!TextFile secret.txt", 3: "!BinaryFile secret.txt"}[tag]
-    tagged_val = {0: "plain", 1: "from-env", 2: "file-text\n", 3: b"file-text\n"}[tag]
+    f2, s1, s2, tag, svc = pick(a["file2"], 4), pick(a["set1"], 10), pick(a["set2"], 10), pick(a["tag"], 5), pick(a["svc"], 2)
+    tagged_yaml = {0: "plain", 1: "!Env C16_VAR", 2: "!TextFile secret.txt", 3: "!BinaryFile secret.txt", 4: "!Env C16_EMPTY"}[tag]
+    tagged_val = {0: "plain", 1: "from-env", 2: "file-text\n", 3: b"file-text\n", 4: ""}[tag]
     comp = {"type": "mod:Cls", "opts": {"x": 1, "nested": {"y": 1, "keep": True}, "tagged": tagged_val}}
     base = {"max_threads": 3, "logging": {"version": 1, "loggers": {"a": {"level": "INFO"}}}}
     comp_yaml = f"  type: mod:Cls\n  opts:\n    x: 1\n    nested: {{y: 1, keep: true}}\n    tagged: {tagged_yaml}\n"
@@ -189,7 +189,7 @@ def prec_fn(a, tier):
             sets_txt.append(f"{k}={SETS[s].split('=', 1)[1]}")
             sets_val.append((k, v))
     uses_file = tag in (2, 3) or 8 in (s1, s2)
-    code, calls, text, exc = invoke(files, sets_txt, None, None, {"C16_VAR": "from-env"}, first_secret="old-text\n" if uses_file else None)
+    code, calls, text, exc = invoke(files, sets_txt, None, None, {"C16_VAR": "from-env", "C16_EMPTY": ""}, first_secret="old-text\n" if uses_file else None)
     exp = expected_call(datas, sets_val, None, None)
     summary = {"files": files, "overrides": sets_txt, "tag": TAGS[tag], "component_in": "the only service" if svc else "top level"}
     if exp[0] == "error":
@@ -458,4 +458,54 @@ NOFILES = Harness(
     stubs=PREC.stubs,
 )
 
-HARNESSES = [PREC, SVC, SPLIT, ALIASH, NOFILES]
+
+# ------------------------------------------------------------------------------ P-sequence
+SEQ_SETS = [[], [("backend_options.debug", True)], [("logging.version", 2), ("backend", "trio")], [("component.opts.x", 9), ("backend_options.use_uvloop", False)]]
+SEQ_TXT = [[], ["backend_options.debug=true"], ["logging.version=2", "backend=trio"], ["component.opts.x=9", "backend_options.use_uvloop=false"]]
+
+
+def seq_params(tier):
+    return [P("r0", 0, 3), P("r1", 0, 3), P("r2", 0, 3), P("file_has", 0, 1)]
+
+
+@guard
+def seq_fn(a, tier):
+    """Several `asphalt run` invocations in one process: each one's configuration depends on its own files and overrides only."""
+    import importlib
+
+    picks = [pick(a["r0"], 4), pick(a["r1"], 4), pick(a["r2"], 4)]
+    file_has = pick(a["file_has"], 2)
+    # every explored path starts from a freshly loaded command module, so that a path's verdict depends on its own three invocations only
+    # (module-level state written by an earlier PATH of the same worker process would not reproduce in the native replay)
+    importlib.reload(_cli)
+    base = {"component": {"type": "mod:Cls", "opts": {"x": 1}}, "logging": {"version": 1}}
+    if file_has:
+        base["backend_options"] = {"debug": False}
+    files = [yaml.safe_dump(base)]
+    summary = {"invocations": [SEQ_TXT[i] for i in picks], "file_defines_backend_options": bool(file_has)}
+    for n_, i in enumerate(picks):
+        code, calls, text, exc = invoke(files, SEQ_TXT[i], None, None)
+        exp = expected_call([base], copy.deepcopy(SEQ_SETS[i]), None, None)
+        if code != 0 or len(calls) != 1:
+            return FAIL(f"sequence:invocation-{n_ + 1}-not-started:code={code}", f"{text} {exc!r}", summary)
+        (args, kwargs) = calls[0]
+        got = ("call", args[0], args[1], kwargs)
+        if got != exp:
+            return FAIL(f"sequence:invocation-{n_ + 1}-got-a-configuration-that-is-not-its-own:earlier={[SEQ_TXT[j] for j in picks[:n_]]}", f"got {got} expected {exp}", summary)
+    return OK(summary, True)
+
+
+SEQ = Harness(
+    prop="C16",
+    name="P-sequence",
+    fn=seq_fn,
+    params=seq_params,
+    cube=lambda tier: 0,
+    title="three invocations in one process with different --set overrides (incl. nested backend_options keys)",
+    bound_text=lambda tier: "one file (with / without a backend_options section); each of three invocations uses one of the override lists " + "; ".join(str(x) for x in SEQ_TXT),
+    oracle="what run_application receives in every invocation equals the reference pipeline applied to THAT invocation's files and overrides",
+    outside="-",
+    stubs=PREC.stubs,
+)
+
+HARNESSES = [PREC, SVC, SPLIT, ALIASH, NOFILES, SEQ]
